@@ -21,11 +21,14 @@ var anchored = []string{"pkg/dhcp/server.go", "pkg/dhcp/pool.go", "pkg/dhcpv6/se
 
 func TestMain(m *testing.M) {
 	run = vk.Start("C02", "exploration")
-	run.Rule("message histories from k<=4 clients against the real DHCPv4 / DHCPv6 handlers on tiny pools (v4 /30 /29 /28, v6 /126 /125 and 4-8 delegated prefixes), interleaved with virtual-time steps {lease/2, lease+1ns, 61 s cleanup tick}: breadth-first exhaustive over the alphabet (every client action incl. REQUEST for a foreign / gateway / network / broadcast / out-of-pool / never-offered address, RELEASE and DECLINE of own and foreign addresses, wrong server-id) with pruning on the fingerprint (lease table + circuit-id index + pool snapshot + reference table + client memory + time offsets), seeded random walks beyond, every history ended by a 61 s step and a drain of the pool with fresh clients; v4 handlers additionally run from 4-8 goroutines under -race. A case = one distinct history (one new step after a known state, plus the drain). non-trivial = distinct history containing a REQUEST/RENEW whose address was at that moment bound or offered to a different client, or a request for an own binding after its expiry, or (concurrent part) a run in which an address changed owner")
+	run.Rule("message histories from k<=4 clients against the real DHCPv4 / DHCPv6 handlers on tiny pools (v4 /30 /29 /28, v6 /126 /125 and 2-8 delegated prefixes), interleaved with virtual-time steps {lease/2, lease+1ns, 61 s cleanup tick; 59 s and 1 s in scenarios and walks}: (1) directed minimal scenarios, (2) breadth-first exhaustive exploration - a 14-symbol core alphabet (2 clients x {DISCOVER/SOLICIT, REQUEST, renew, RELEASE, DECLINE, rapid-commit} + hostile REQUEST for a foreign address / the gateway + time) to depth 5 (quick) / 6 (thorough) and the full alphabet (also REQUEST for network / broadcast / out-of-pool / never-offered addresses, init-reboot, DECLINE and RELEASE of foreign addresses, INFORM, REBIND, CONFIRM, wrong server-id, RENEW naming a foreign value) to depth 3 / 4, a history being extended only if its end state (fingerprint: lease table + circuit-id index + pool snapshot + reference table + client memory + time offsets) is new, (3) seeded random walks of 30-200 steps with 3-4 clients and per-message transport {direct, relayed, relayed+option 82}; every history ends with a 61 s step and a drain of the pool by fresh clients (once per distinct end state); (4) the v4 handlers called from 4-8 goroutines together with the expiry sweep under -race, and late renewals racing the sweep over 800 lapsed leases (child process, so that a crash is a verdict). A case = one distinct history. non-trivial = distinct history containing a REQUEST/RENEW whose address was at that moment bound or offered to a different client, or a request for an own binding after its expiry / release; concurrent part: a run in which an address changed owner or both orders of sweep and renewal occurred")
 	run.Assume("client identity is the MAC (v4) / DUID (v6); a circuit-id identifies exactly one client (two MACs never share an option-82 circuit-id)")
-	run.Assume("local-pool mode: no Nexus client, HTTP allocator, RADIUS, QoS or NAT manager is attached; the DHCPv6 server uses its legacy AddressPool / PrefixPool")
-	run.Assume("a binding is fed to the reference table only by an observed ACK / Reply carrying the value; its expiry is the reply's own lease time / valid lifetime; an OFFER / Advertise counts as outstanding until ACK, NAK, RELEASE, DECLINE or one lease time")
-	run.Assume("expiry is judged at the handlers and the v4 cleanup loop (run for real on the virtual clock); a reclaim mechanism that lived only in goroutines started by Start() of the DHCPv6 server would not be observed (none exists)")
+	run.Assume("local-pool mode: no Nexus client, HTTP allocator, RADIUS, QoS or NAT manager is attached; the DHCPv6 server uses its legacy AddressPool / PrefixPool (not the integrated allocator)")
+	run.Assume("a binding enters the reference table only through an observed ACK / Reply carrying the value; its expiry is the reply's own lease time / valid lifetime (unexpired = now < expiry); replies are decoded with the insomniacslk/dhcp library, not with the code under test")
+	run.Assume("an OFFER / Advertise counts as outstanding until ACK, NAK, RELEASE, DECLINE or one lease time (DESIGN 5b); an offer of the address the client is bound to at that moment adds nothing to that binding (an OFFER does not extend a lease); the property does not bound how long a server may keep an offered address reserved, so a value that was re-offered to its former holder after the binding lapsed creates no 'available again' obligation")
+	run.Assume("'available again' is judged by draining the pool with fresh clients after expiry + one cleanup tick (v4: the real cleanup loop runs on the virtual clock; v6: any reclaim reachable from the message handlers; a reclaim that lived only in goroutines started by Start() would not be observed - none exists)")
+	run.Assume("a DECLINE quarantines the value only if the decliner held it or was offered it (DESIGN 5b); a DHCPv6 Decline names addresses only, a delegated prefix of the same client stays bound")
+	run.Assume("after the first violation on a value the remaining clauses are not judged on that value in that history; all other values keep being judged")
 	run.Assume("DHCPv6 handlers are driven sequentially (receiveLoop is single-threaded); only DHCPv4 handlers are called concurrently (server4 dispatches one goroutine per packet)")
 	if childMode() {
 		// the concurrent parts run in a child process (a crash of the code under test must not take the
